@@ -137,11 +137,17 @@ def impl(case):
         import warnings
         with warnings.catch_warnings():
             warnings.simplefilter('ignore')
+            before = np.array(traj.positions).copy()
             shapes = an.analyze_trajectory(traj, supercell=tuple(sc), radius=r)
+            # the analysis is repeated on the same trajectory (e.g. after optimising the sites, or with another radius): same input, same answer
+            source_same = bool(np.array_equal(before, np.array(traj.positions)))
+            again = an.analyze_trajectory(traj, supercell=tuple(sc), radius=r)
+            repeat_same = bool(np.array_equal(np.array(again[0].coords), np.array(shapes[0].coords)))
     sh = shapes[0]
     cart = np.array(sh.coords).reshape(-1, 3)
     frac_pts = lat.get_fractional_coords(cart) if len(cart) else np.zeros((0, 3))
-    return {'raw': raw, 'radius': r, 'points': (frac_pts * DEN).tolist(), 'dists': [float(d) for d in sh.distances()] if len(cart) else [],
+    extra = {'source_same': source_same, 'repeat_same': repeat_same} if sc != [1, 1, 1] else {}
+    return {**extra, 'raw': raw, 'radius': r, 'points': (frac_pts * DEN).tolist(), 'dists': [float(d) for d in sh.distances()] if len(cart) else [],
             'ops': [[W, [[x.numerator, x.denominator] for x in w], Wi] for W, w, Wi in ops]}
 
 
@@ -189,6 +195,10 @@ def oracle(case, out):
         return []
     fs = []
     r = out['radius']
+    if out.get('source_same') is False:
+        fs.append(('shape/analysis-alters-trajectory', f'analyze_trajectory(supercell={case["supercell"]}) changed the positions of the trajectory it analysed'))
+    if out.get('repeat_same') is False:
+        fs.append(('shape/repeat-differs', f'a second analyze_trajectory(supercell={case["supercell"]}) on the same trajectory collects different points'))
     where = f'group {case["sg"]}, lattice {case["m"]}, site {case["site24"]}/24, radius {r}, supercell {case["supercell"]}'
     if len(out['points']) != len(pairs):
         fs.append(('shape/count', f'{len(out["points"])} points collected but {len(pairs)} (operation, position) pairs lie within the radius; {where}'))
